@@ -5,6 +5,7 @@ import (
 	"fmt"
 	"strings"
 	"sync"
+	"time"
 
 	"github.com/influxdata/influxql"
 
@@ -120,6 +121,83 @@ func c01check(spec *gram.Spec, text string, vec []int, rank int) []ev.Finding {
 	if err != nil || len(q.Statements) != 1 || !astx.Equal(astx.Denoted, spec.Stmt, q.Statements[0]) {
 		return []ev.Finding{{Sig: "parsequery-differs:" + form, Witness: text, Detail: fmt.Sprintf("ParseQuery: %v", err), Case: cs, Rank: rank}}
 	}
+	// query = statement { ";" statement }: the statement is derivable in front of another one as well, and ends where
+	// it ends alone (a statement that reads one token too many takes the separator with it). Texts that end in a
+	// line comment are left out: there the semicolon would be part of the comment.
+	if !strings.Contains(text, "--") {
+		q2, err := influxql.ParseQuery(text + "; SHOW DATABASES")
+		bad := ""
+		switch {
+		case err != nil:
+			bad = err.Error()
+		case len(q2.Statements) != 2:
+			bad = fmt.Sprintf("%d statements", len(q2.Statements))
+		case !astx.Equal(astx.Denoted, spec.Stmt, q2.Statements[0]):
+			bad = "the first statement differs from the statement alone"
+		default:
+			if _, ok := q2.Statements[1].(*influxql.ShowDatabasesStatement); !ok {
+				bad = fmt.Sprintf("the second statement is a %T", q2.Statements[1])
+			}
+		}
+		if bad != "" {
+			return []ev.Finding{{Sig: "not-accepted-in-front-of-another-statement:" + form, Witness: text + "; SHOW DATABASES", Detail: "ParseQuery: " + bad, Case: cs, Rank: rank}}
+		}
+	}
+	return nil
+}
+
+// c01resample: the one rule of the grammar that compares values of two clauses. CREATE CONTINUOUS QUERY … RESAMPLE
+// [EVERY e] [FOR f]: at least one of the two, and f, when given, covers the larger of e and the GROUP BY time()
+// interval. Every combination over a small ladder of durations around one interval, exactly at the boundary too.
+type c01rsCase struct {
+	Every, For, Interval string
+}
+
+var c01rsDurs = []string{"", "5m", "10m", "10m1s", "20m", "9m59s", "600s"}
+
+func c01resample(c c01rsCase) []ev.Finding {
+	d := func(s string) time.Duration {
+		if s == "" {
+			return 0
+		}
+		v, _ := gram.ParseDur(s)
+		return v
+	}
+	text := "CREATE CONTINUOUS QUERY cq ON db0 RESAMPLE"
+	if c.Every != "" {
+		text += " EVERY " + c.Every
+	}
+	if c.For != "" {
+		text += " FOR " + c.For
+	}
+	if c.Interval != "" {
+		text += " BEGIN SELECT mean(x) INTO t FROM m GROUP BY time(" + c.Interval + ") END"
+	} else {
+		text += " BEGIN SELECT x INTO t FROM m END"
+	}
+	e, f, iv := d(c.Every), d(c.For), d(c.Interval)
+	valid := e != 0 || f != 0
+	if f != 0 {
+		need := iv
+		if e > need {
+			need = e
+		}
+		if f < need {
+			valid = false
+		}
+	}
+	st, err := influxql.ParseStatement(text)
+	switch {
+	case valid && err != nil:
+		return []ev.Finding{{Sig: "rejected:CREATE_CONTINUOUS_QUERY:resample-rule", Witness: text, Detail: "FOR covers the larger of EVERY and the interval, yet: " + err.Error(), Case: c}}
+	case valid:
+		cq, ok := st.(*influxql.CreateContinuousQueryStatement)
+		if !ok || cq.ResampleEvery != e || cq.ResampleFor != f {
+			return []ev.Finding{{Sig: "wrong-ast:CREATE_CONTINUOUS_QUERY:resample-values", Witness: text, Detail: fmt.Sprintf("parsed %v", st), Case: c}}
+		}
+	case err == nil:
+		return []ev.Finding{{Sig: "accepted-although-not-derivable:CREATE_CONTINUOUS_QUERY:resample-rule", Witness: text, Detail: "FOR is shorter than the larger of EVERY and the interval (or neither is given)", Case: c}}
+	}
 	return nil
 }
 
@@ -138,6 +216,14 @@ func errClass(msg string) string {
 
 func init() {
 	register(&Check{ID: "C01", Run: c01run, Replay: func(raw json.RawMessage) []ev.Finding {
+		var probe map[string]json.RawMessage
+		if json.Unmarshal(raw, &probe) == nil {
+			if _, ok := probe["Interval"]; ok {
+				var rc c01rsCase
+				json.Unmarshal(raw, &rc)
+				return c01resample(rc)
+			}
+		}
 		var c vecCase
 		if json.Unmarshal(raw, &c) != nil {
 			return nil
@@ -159,7 +245,22 @@ func c01run(r *ev.Run) {
 		sets = []boundSet{{"struct<=3,value<=1", []int{3, 0, 1}}, {"struct<=2,spell<=1,value<=1", []int{2, 1, 1}}, {"struct<=1,spell<=2", []int{1, 2, 0}}, {"struct<=2,value<=2", []int{2, 0, 2}}}
 	}
 	runGrammar(r, sets, func(c *xplore.Ctx) (string, string, []ev.Finding, bool) { return c01body(c) })
-	r.Rule = "statements generated from the grammar model (41 statement forms; every optional clause, list length, alternative form, value and spelling is a choice) within the stated deviation bounds from the minimal statement of each form; state = distinct statement text; non-trivial = text accepted by the parser and compared with the intended AST"
+	nrs := 0
+	for _, e := range c01rsDurs {
+		for _, f := range c01rsDurs {
+			for _, iv := range []string{"", "10m", "600s", "1m"} {
+				c := c01rsCase{Every: e, For: f, Interval: iv}
+				r.Eval()
+				r.State(astx.HashString(fmt.Sprint("RS|", c)), true)
+				nrs++
+				for _, fd := range c01resample(c) {
+					r.Report(fd)
+				}
+			}
+		}
+	}
+	r.Set("resample_rule_cases", nrs)
+	r.Rule = "statements generated from the grammar model (41 statement forms; every optional clause, list length, alternative form, value and spelling is a choice) within the stated deviation bounds from the minimal statement of each form; state = distinct statement text; non-trivial = text accepted by the parser and compared with the intended AST; every accepted statement is parsed once more in front of `; SHOW DATABASES`; plus every combination of EVERY, FOR and interval over a ladder of 7 durations for the RESAMPLE rule of continuous queries"
 }
 
 // runGrammar explores the grammar under each bound set with a body returning (text, form, findings, skipped).
